@@ -66,7 +66,9 @@ Proof. destruct a, b; simpl; split; intro H; try discriminate; reflexivity. Qed.
 (* ------------------------------------------------------------------ projections of the list fields *)
 Definition wq (s : state) : list welem := map (fun x => fst (fst x)) (sendq s).
 Definition hk (s : state) : list hkind := map fst (handlers s).
-Definition ik (s : state) : list idk := map fst (idhandlers s).
+(* the id handlers of the library; the user's (IKUser, xmpp_id_handler_add) is registered at any time, survives
+   a reset and never takes part in the negotiation, so the invariants do not speak about it *)
+Definition ik (s : state) : list idk := filter (fun k => negb (is_user_id k)) (map fst (idhandlers s)).
 Definition tk (s : state) : list tkind := map (fun x => fst (fst x)) (timed s).
 Definition sw (s : state) : list welem := map (fun x => fst (fst (fst x))) (smq s).
 Definition live (s : state) : Prop := st s <> Disconnected.
@@ -78,11 +80,11 @@ Proof.
   - intro H. apply in_map_iff in H as [x [E Hin]]. exists x. split; [exact Hin|].
     apply hkind_eqb_eq. symmetry. exact E.
 Qed.
-Lemma id_has_In k s : id_has k s = true <-> In k (ik s).
+Lemma id_has_In k s : is_user_id k = false -> (id_has k s = true <-> In k (ik s)).
 Proof.
-  unfold id_has, ik. rewrite existsb_exists. split.
-  - intros [x [Hin He]]. apply idk_eqb_eq in He. subst. apply in_map. exact Hin.
-  - intro H. apply in_map_iff in H as [x [E Hin]]. exists x. split; [exact Hin|].
+  intro U. unfold id_has, ik. rewrite existsb_exists, filter_In. split.
+  - intros [x [Hin He]]. apply idk_eqb_eq in He. subst. split; [apply in_map; exact Hin|rewrite U; reflexivity].
+  - intros [H _]. apply in_map_iff in H as [x [E Hin]]. exists x. split; [exact Hin|].
     apply idk_eqb_eq. symmetry. exact E.
 Qed.
 Lemma timed_has_In k s : timed_has k s = true <-> In k (tk s).
@@ -462,23 +464,35 @@ Lemma h_del_eff p k s : eff [Fh; FhD] p s (h_del k s).
 Proof.
   unfold h_del. mk_auto. intros k' H. apply (In_hk_h_del k k' s) in H. left. tauto.
 Qed.
-Lemma In_ik_id_add k k' s : In k' (ik (id_add k s)) <-> In k' (ik s) \/ k' = k.
+Lemma ik_id_add_new k s : id_has k s = false ->
+  ik (id_add k s) = ik s ++ (if is_user_id k then [] else [k]).
 Proof.
-  unfold id_add. destruct (id_has k s) eqn:E.
-  - split; [auto|]. intros [A|A]; [exact A|]. subst. apply id_has_In. exact E.
-  - unfold ik. simpl. rewrite map_app, in_app_iff. simpl. intuition.
+  intro E. unfold id_add. rewrite E. unfold ik. cbn [idhandlers set_idhandlers]. rewrite map_app, filter_app. cbn [map filter fst].
+  destruct (is_user_id k); reflexivity.
+Qed.
+Lemma In_ik_id_add k k' s : In k' (ik (id_add k s)) -> In k' (ik s) \/ k' = k.
+Proof.
+  destruct (id_has k s) eqn:E; [unfold id_add; rewrite E; auto|].
+  rewrite (ik_id_add_new k s E), in_app_iff. intros [A|A]; [left; exact A|right].
+  destruct (is_user_id k); [destruct A|destruct A as [A|[]]; auto].
+Qed.
+Lemma ik_id_add_user s : ik (id_add IKUser s) = ik s.
+Proof.
+  destruct (id_has IKUser s) eqn:E; [unfold id_add; rewrite E; reflexivity|].
+  rewrite (ik_id_add_new _ s E). apply app_nil_r.
 Qed.
 Lemma id_add_eff k s : eff [Fid] (pI (fun x => x = k)) s (id_add k s).
 Proof.
-  unfold id_add. break_if; [apply eff_refl|]. mk_auto.
-  - intros k' H. unfold ik in H. simpl in H. rewrite map_app in H. apply in_app_iff in H.
-    destruct H as [H|[H|[]]]; [left; exact H|right; cbn; auto].
-  - intros _ k' H. unfold ik. simpl. rewrite map_app. apply in_app_iff. left. exact H.
+  destruct (id_has k s) eqn:E; [unfold id_add; rewrite E; apply eff_refl|].
+  pose proof (ik_id_add_new k s E) as X. unfold id_add in *. rewrite E in *. mk_auto.
+  - intros k' H. rewrite X in H. apply in_app_iff in H.
+    destruct H as [H|H]; [left; exact H|right; cbn]. destruct (is_user_id k); [destruct H|destruct H as [H|[]]; auto].
+  - intros _ k' H. rewrite X. apply in_app_iff. left. exact H.
 Qed.
 Lemma In_ik_id_del k k' s : In k' (ik (id_del k s)) -> In k' (ik s).
 Proof.
-  unfold id_del, ik. simpl.
-  rewrite (map_filter_proj (@fst idk bool) (fun y => negb (idk_eqb k y))). rewrite filter_In. tauto.
+  unfold id_del, ik. cbn [idhandlers set_idhandlers].
+  rewrite (map_filter_proj (@fst idk bool) (fun y => negb (idk_eqb k y))). rewrite !filter_In. tauto.
 Qed.
 Lemma id_del_eff p k s : eff [Fid; FidD] p s (id_del k s).
 Proof.
@@ -555,7 +569,7 @@ Qed.
 
 (* negotiation elements that must never be retained in the SM queue / are policy relevant *)
 Definition is_neg (w : welem) : bool :=
-  match w with WStartTls | WAuth _ | WResponse | WLegacy => true | _ => false end.
+  match w with WStartTls | WAuth _ | WResponse | WLegacy | WHandshake => true | _ => false end.
 Definition benignE : entry -> Prop := fun x => is_neg (fst (fst x)) = false.
 Definition pB : preds := mkP benignE (fun _ => False) (fun _ => False) (fun _ => False).
 
@@ -1041,7 +1055,7 @@ Proof.
 Qed.
 
 Lemma call_id_handler_good k now e s : goodR s (call_id_handler k now e s).
-Proof. destruct k; cbv beta iota delta [call_id_handler]; repeat symR. Qed.
+Proof. destruct k; cbv beta iota delta [call_id_handler say]; repeat symR. Qed.
 
 Lemma sm_handle_effA e s : eff cAll pTrue s (sm_handle e s).
 Proof. unfold sm_handle. peels. Qed.
@@ -1080,6 +1094,7 @@ Proof.
   { eapply goodR_pre; [exact AE|]. unfold r1.
     destruct (idk_of (e_id e)) as [i|]; [|apply goodR_ret; apply eff_refl].
     destruct (id_has i sE); [|apply goodR_ret; apply eff_refl].
+    destruct (is_user_id i && negb (neg_done sE)); [apply goodR_ret; apply eff_refl|].
     pose proof (call_id_handler_good i now e sE) as [A B].
     destruct (call_id_handler i now e sE) as [sa oa]. split; cbn [fst snd] in *; [peels|exact B]. }
   clearbody r1. destruct r1 as [s1 o1].
